@@ -2,8 +2,8 @@
 import re
 from props.common_prog import judge_prog
 
-THEOREM_MODULES = ["Hcl.Theorems.C07"]
-THEOREMS = {"Hcl.Theorems.C07": ["C07_cycle", "C07_soundness", "C07_values_fit", "C07_expression",
+THEOREM_MODULES = ["Hcl.Theorems.C07", "Hcl.Tie.Ops"]
+THEOREMS = {"Hcl.Tie.Ops": ["Tie.Ops.binopKind", "Tie.Ops.applyRawArms", "Tie.Ops.binopApplyText", "Tie.Ops.unopApplyText", "Tie.Ops.maskText"], "Hcl.Theorems.C07": ["C07_cycle", "C07_soundness", "C07_values_fit", "C07_expression",
                                  "execAction_sound", "processBanks_sound", "ev_correct"]}
 
 RULE = ("S-EXPR and S-PROG (all profiles) as for C02/C01, plus the width-mutated S-EXPR stream (programs at the edge of "
